@@ -205,6 +205,152 @@ let show_event = function
   | EvError e -> "MAL " ^ show_err e
   | EvPanic _ -> "PANIC"
 
+(* ------------------------------------------------------------------ MQTT 5 *)
+
+(* property set text: none | empty | <id>=<value>;...   value by the id's kind:
+   byte/u16/u32/varint decimal, string/binary hex, user property hex~hex *)
+let parse_props (s : string) : props =
+  match s with
+  | "none" -> None
+  | "empty" -> Some []
+  | _ ->
+      Some
+        (List.map
+           (fun item ->
+             let i = String.index item '=' in
+             let id = int_of_string (String.sub item 0 i) in
+             let v = String.sub item (i + 1) (String.length item - i - 1) in
+             let pv =
+               match kind_of_id (n_of_int id) with
+               | Some KByte -> VByte (nn v)
+               | Some KU16 -> VU16 (nn v)
+               | Some KU32 -> VU32 (nn v)
+               | Some KVarInt -> VVarInt (nn v)
+               | Some KStr -> VStr (unhex_fast v)
+               | Some KBin -> VBin (unhex_fast v)
+               | Some KPair -> (
+                   match String.split_on_char '~' v with
+                   | [ k; x ] -> VPair (unhex_fast k, unhex_fast x)
+                   | _ -> failwith "bad user property")
+               | None -> failwith ("unknown property id " ^ string_of_int id)
+             in
+             (n_of_int id, pv))
+           (String.split_on_char ';' s))
+
+let show_props (ps : props) : string =
+  match ps with
+  | None -> "none"
+  | Some [] -> "empty"
+  | Some l ->
+      String.concat ";"
+        (List.map
+           (fun (id, v) ->
+             si id ^ "="
+             ^
+             match v with
+             | VByte x | VU16 x | VU32 x | VVarInt x -> si x
+             | VStr x | VBin x -> hex_fast x
+             | VPair (k, x) -> hex_fast k ^ "~" ^ hex_fast x)
+           l)
+
+let parse_packet5 (t : string list) : packet5 =
+  match t with
+  | [ "CONNECT"; ka; id; clean; props; will; login ] ->
+      let will =
+        match kv will "will" with
+        | "none" -> None
+        | s -> (
+            match String.split_on_char ':' s with
+            | [ a; b; q; r; p ] ->
+                Some { w5_topic = unhex_fast a; w5_message = unhex_fast b; w5_qos = qos_of_s q; w5_retain = bb r; w5_props = parse_props p }
+            | _ -> failwith "bad will")
+      in
+      let login =
+        match kv login "login" with
+        | "none" -> None
+        | s -> (
+            match String.split_on_char ':' s with
+            | [ a; b ] -> Some { l_username = unhex_fast a; l_password = unhex_fast b }
+            | _ -> failwith "bad login")
+      in
+      Connect5
+        { c5_keep_alive = nn (kv ka "ka"); c5_client_id = unhex_fast (kv id "id"); c5_clean_start = bb (kv clean "clean");
+          c5_props = parse_props (kv props "props"); c5_will = will; c5_login = login }
+  | [ "CONNACK"; sp; code; props ] -> ConnAck5 (bb (kv sp "sp"), nn (kv code "code"), parse_props (kv props "props"))
+  | [ "PUBLISH"; dup; qos; retain; topic; pkid; payload; props ] ->
+      Publish5
+        ( bb (kv dup "dup"), qos_of_s (kv qos "qos"), bb (kv retain "retain"), unhex_fast (kv topic "topic"),
+          nn (kv pkid "pkid"), unhex_fast (kv payload "payload"), parse_props (kv props "props") )
+  | [ "PUBACK"; pkid; r; props ] -> PubAck5 (nn (kv pkid "pkid"), nn (kv r "reason"), parse_props (kv props "props"))
+  | [ "PUBREC"; pkid; r; props ] -> PubRec5 (nn (kv pkid "pkid"), nn (kv r "reason"), parse_props (kv props "props"))
+  | [ "PUBREL"; pkid; r; props ] -> PubRel5 (nn (kv pkid "pkid"), nn (kv r "reason"), parse_props (kv props "props"))
+  | [ "PUBCOMP"; pkid; r; props ] -> PubComp5 (nn (kv pkid "pkid"), nn (kv r "reason"), parse_props (kv props "props"))
+  | [ "SUBSCRIBE"; pkid; fs; props ] ->
+      Subscribe5
+        ( nn (kv pkid "pkid"),
+          list_of (kv fs "filters") (fun s ->
+              match String.split_on_char ':' s with
+              | [ p; q; nl; pr; rule ] ->
+                  { f5_path = unhex_fast p; f5_qos = qos_of_s q; f5_nolocal = bb nl; f5_preserve_retain = bb pr; f5_rule = nn rule }
+              | _ -> failwith "bad filter"),
+          parse_props (kv props "props") )
+  | [ "SUBACK"; pkid; cs; props ] -> SubAck5 (nn (kv pkid "pkid"), list_of (kv cs "codes") rc_of_s, parse_props (kv props "props"))
+  | [ "UNSUBSCRIBE"; pkid; ts; props ] ->
+      Unsubscribe5 (nn (kv pkid "pkid"), list_of (kv ts "topics") unhex_fast, parse_props (kv props "props"))
+  | [ "UNSUBACK"; pkid; rs; props ] -> UnsubAck5 (nn (kv pkid "pkid"), list_of (kv rs "reasons") nn, parse_props (kv props "props"))
+  | [ "PINGREQ" ] -> PingReq5
+  | [ "PINGRESP" ] -> PingResp5
+  | [ "DISCONNECT"; r; props ] -> Disconnect5 (nn (kv r "reason"), parse_props (kv props "props"))
+  | _ -> failwith ("bad v5 packet: " ^ String.concat " " t)
+
+let show_packet5 (p : packet5) : string =
+  match p with
+  | Connect5 c ->
+      Printf.sprintf "CONNECT ka=%s id=%s clean=%s props=%s will=%s login=%s" (si c.c5_keep_alive) (hex_fast c.c5_client_id)
+        (sb c.c5_clean_start) (show_props c.c5_props)
+        (match c.c5_will with
+        | None -> "none"
+        | Some w ->
+            Printf.sprintf "%s:%s:%s:%s:%s" (hex_fast w.w5_topic) (hex_fast w.w5_message) (s_of_qos w.w5_qos) (sb w.w5_retain)
+              (show_props w.w5_props))
+        (match c.c5_login with
+        | None -> "none"
+        | Some l -> Printf.sprintf "%s:%s" (hex_fast l.l_username) (hex_fast l.l_password))
+  | ConnAck5 (sp, code, ps) -> Printf.sprintf "CONNACK sp=%s code=%s props=%s" (sb sp) (si code) (show_props ps)
+  | Publish5 (dup, q, retain, topic, pkid, payload, ps) ->
+      Printf.sprintf "PUBLISH dup=%s qos=%s retain=%s topic=%s pkid=%s payload=%s props=%s" (sb dup) (s_of_qos q) (sb retain)
+        (hex_fast topic) (si pkid) (hex_fast payload) (show_props ps)
+  | PubAck5 (pkid, r, ps) -> Printf.sprintf "PUBACK pkid=%s reason=%s props=%s" (si pkid) (si r) (show_props ps)
+  | PubRec5 (pkid, r, ps) -> Printf.sprintf "PUBREC pkid=%s reason=%s props=%s" (si pkid) (si r) (show_props ps)
+  | PubRel5 (pkid, r, ps) -> Printf.sprintf "PUBREL pkid=%s reason=%s props=%s" (si pkid) (si r) (show_props ps)
+  | PubComp5 (pkid, r, ps) -> Printf.sprintf "PUBCOMP pkid=%s reason=%s props=%s" (si pkid) (si r) (show_props ps)
+  | Subscribe5 (pkid, fs, ps) ->
+      Printf.sprintf "SUBSCRIBE pkid=%s filters=%s props=%s" (si pkid)
+        (s_of_list fs (fun f ->
+             Printf.sprintf "%s:%s:%s:%s:%s" (hex_fast f.f5_path) (s_of_qos f.f5_qos) (sb f.f5_nolocal) (sb f.f5_preserve_retain)
+               (si f.f5_rule)))
+        (show_props ps)
+  | SubAck5 (pkid, cs, ps) -> Printf.sprintf "SUBACK pkid=%s codes=%s props=%s" (si pkid) (s_of_list cs s_of_rc) (show_props ps)
+  | Unsubscribe5 (pkid, ts, ps) ->
+      Printf.sprintf "UNSUBSCRIBE pkid=%s topics=%s props=%s" (si pkid) (s_of_list ts hex_fast) (show_props ps)
+  | UnsubAck5 (pkid, rs, ps) -> Printf.sprintf "UNSUBACK pkid=%s reasons=%s props=%s" (si pkid) (s_of_list rs si) (show_props ps)
+  | PingReq5 -> "PINGREQ"
+  | PingResp5 -> "PINGRESP"
+  | Disconnect5 (r, ps) -> Printf.sprintf "DISCONNECT reason=%s props=%s" (si r) (show_props ps)
+
+let max5 s = if s = "none" then None else Some (nn s)
+
+let show_event5 = function
+  | EvPacket p -> "PKT " ^ show_packet5 p
+  | EvError e -> "MAL " ^ show_err e
+  | EvPanic _ -> "PANIC"
+
+(* with argument "unfixed" / "fixed" the v5 decoder of that variant of the model is used
+   (default: the model of the current code) *)
+let variant = if Array.length Sys.argv > 1 then Sys.argv.(1) else ""
+let rd5 fl bs max =
+  match variant with "unfixed" -> read5_gen unfixed fl bs max | "fixed" -> read5_gen fixed fl bs max | _ -> read5 fl bs max
+
 let () =
   iter_lines (fun line ->
       match split_ws line with
@@ -231,6 +377,31 @@ let () =
             match ending with EndClean -> parts @ [ "END clean" ] | EndPartial -> parts @ [ "END partial" ] | EndDead -> parts
           in
           print_endline (String.concat " | " parts)
+      | "ENC" :: "5" :: fl :: max :: pkt -> (
+          let fl = flav fl in
+          let p = parse_packet5 pkt in
+          match write5 fl (max5 max) p with
+          | Ok (bs, ret) ->
+              Printf.printf "OK %s %s %s\n" (hex_fast bs) (si ret) (match fl with Client -> si (size5 p) | Broker -> "-")
+          | Err e -> Printf.printf "ERR %s\n" (show_err e)
+          | Panic _ -> print_endline "PANIC")
+      | [ "DEC"; "5"; fl; max; bs ] -> (
+          let bs = unhex_fast bs in
+          let total = llen bs 0 in
+          match rd5 (flav fl) bs (max5 max) with
+          | Packet (p, rest) -> Printf.printf "PKT %s %d\n" (show_packet5 p) (total - llen rest 0)
+          | Malformed (e, rest) -> Printf.printf "MAL %s %d\n" (show_err e) (total - llen rest 0)
+          | NeedMore k -> Printf.printf "MORE %s\n" (si k)
+          | RPanic _ -> print_endline "PANIC")
+      | "STREAM" :: "5" :: fl :: max :: chunks ->
+          let evs, ending = run_stream5 (flav fl) (max5 max) (List.map unhex_fast chunks) in
+          let parts = List.map show_event5 evs in
+          let parts =
+            match ending with EndClean -> parts @ [ "END clean" ] | EndPartial -> parts @ [ "END partial" ] | EndDead -> parts
+          in
+          print_endline (String.concat " | " parts)
+      | "WF" :: "5" :: fl :: pkt -> print_endline (if wf5 (flav fl) (parse_packet5 pkt) then "T" else "F")
+      | "NORM" :: "5" :: fl :: pkt -> print_endline (show_packet5 (norm5 (flav fl) (parse_packet5 pkt)))
       | [ "UTF8"; bs ] -> print_endline (if utf8_valid (unhex_fast bs) then "T" else "F")
       | "WF" :: "4" :: fl :: pkt -> print_endline (if wf_v4 (flav fl) (parse_packet pkt) then "T" else "F")
       | "NORM" :: "4" :: pkt -> print_endline (show_packet (norm (parse_packet pkt)))
